@@ -158,6 +158,38 @@ theorem abandon_changes_nothing (g : G) (i : Nat) :
         · first | rfl | (simp only [notifyOne]; split <;> rfl)
         · rfl
 
+/-- (exit clean-up runs once — the terminal supervision event) The supervisor is handed exactly one
+terminal event when no statement of `cleanup` panics, and never more than two: `Sh.supEvents` counts
+the executions of `cleanup.notify`; a panic in a LATER statement of `cleanup` (`unlink`) makes the
+still-armed guard's `Drop` run `cleanup` again with a fresh "actor_task_cancelled" event, so the
+supervisor is told twice — by design of the guard; the model says so explicitly (witness below).
+For all schedules, any waiters, drains, successors, late `set_status` calls. -/
+theorem terminal_events_bounded (g0 : G) (h0 : Initial g0) (hz : g0.sh.supEvents = 0) (sched : List Tid) :
+    (run g0 sched).sh.supEvents ≤ 2 ∧
+    ((run g0 sched).exiter.unwound = false → (run g0 sched).sh.supEvents ≤ 1) ∧
+    ((run g0 sched).exiter.finished = true → 1 ≤ (run g0 sched).sh.supEvents) := by
+  have h0' : EvOk g0 := by
+    refine ⟨by rw [hz]; exact Nat.zero_le _, fun hp => ?_⟩
+    rw [h0.exiter] at hp; simp [EPc.pastNotify] at hp
+  have E := evok_run g0 sched (inv_initial g0 h0) h0'
+  have hle := E.le
+  refine ⟨?_, fun hu => ?_, fun hf => E.ge (finished_pastNotify hf)⟩
+  · have : b2n (run g0 sched).exiter.pc.pastNotify ≤ 1 ∧ b2n (run g0 sched).exiter.unwound ≤ 1 := by
+      constructor <;> (unfold b2n; split <;> omega)
+    omega
+  · rw [hu] at hle
+    have : b2n (run g0 sched).exiter.pc.pastNotify ≤ 1 := by unfold b2n; split <;> omega
+    simp only [b2n, Bool.false_eq_true, if_false] at hle this
+    omega
+
+/-- witness: `cleanup.unlink` panics after the supervisor has been notified; the guard re-runs
+`cleanup`: two terminal events, and both waiters are still released, after a full stop -/
+example :
+    let g := run (init true [] [] 2)
+      ([.w 0, .w 0, .w 0] ++ List.replicate 9 .e ++ [.unwind] ++ List.replicate 12 .e ++ [.w 0, .w 1, .w 1])
+    g.sh.supEvents = 2 ∧ g.exiter.unwound = true ∧ g.exiter.finished = true ∧
+      g.waiters.map (·.pc) = [.returned true, .returned true] := by decide
+
 /-! ### Round 4: every wait form, and the supervisor-side children wrappers (`Model/WaitForms.lean`)
 
 Any number of actors ("kids"), each with its own complete exit machine; any number of concurrent
@@ -495,3 +527,4 @@ end C06
 #print axioms C06.returned_waiter_name_released
 #print axioms C06.send_step_outcomes
 #print axioms C06.every_call_completes
+#print axioms C06.terminal_events_bounded
